@@ -293,6 +293,10 @@ def cases(tier, rng, dist):
     return mark_ff(more())
 
 
+_REC = []
+NPC = RecordingModule(NPC, _REC, ["npc", "fisher", "liptak", "tippett", "inverse_n_weight"])
+
+
 def run(c):
     ff = fail_first(failing_calls(c)) if "ff" in c else None
     if c["f"] == "liptak_one":
@@ -305,6 +309,8 @@ def run(c):
         o = _run_plain(c)
     if ff is not None and isinstance(o, dict):
         o["ff"] = ff
+    if isinstance(o, dict):
+        o["retained_changed"] = retained_changed(_REC)
     return o
 
 
@@ -333,3 +339,12 @@ if _extra_terms_plain is not None:
 
 def nontrivial(c, o):
     return True if c["f"] == "liptak_one" else _nontrivial_plain(c, o)
+
+
+_oracle_before_retention = oracle
+
+
+def oracle(c, o):
+    if isinstance(o, dict) and o.get("retained_changed"):
+        return {"why": "results kept by the caller changed when later calls were made: " + o["retained_changed"], "cls": "npc:result-aliased"}
+    return _oracle_before_retention(c, o)
